@@ -26,7 +26,7 @@ type Out = Result<String, String>;
 macro_rules! backend_runner {
     ($fname:ident, $V:ty, $aad:expr) => {
         /// keys: (local, secret, public); returns per-thread result lists
-        fn $fname(local: &[u8], sk: &[u8], threads: usize, ops_per_thread: usize, seed: u64, history: bool) -> (Vec<Vec<(u64, Out)>>, Vec<Vec<(u64, Out)>>) {
+        fn $fname(local: &[u8], sk: &[u8], threads: usize, ops_per_thread: usize, seed: u64, history: bool, first_use: bool) -> (Vec<Vec<(u64, Out)>>, Vec<Vec<(u64, Out)>>) {
             type LK = Key<$V, Local>;
             type SK = Key<$V, Secret>;
             type PK = Key<$V, Public>;
@@ -47,6 +47,14 @@ macro_rules! backend_runner {
                 let good_local = UnsealedToken::<$V, Local, Raw>::new(Raw(b"payload".to_vec())).with_footer(b"f".to_vec()).seal(&lk, a).expect("seal").to_string();
                 let good_public = UnsealedToken::<$V, Public, Raw>::new(Raw(b"payload".to_vec())).with_footer(b"f".to_vec()).seal(&skk, a).expect("sign").to_string();
                 Shared { lk, sk: skk, pk, good_local, good_public, nonce }
+            }
+            /// the same keys as objects that have never been used: parsed from bytes only (the public key from
+            /// its own bytes, not derived), tokens taken from another copy
+            fn mk_unused(local: &[u8], sk: &[u8], donor: &Shared) -> Shared {
+                let lk: LK = key_from::<$V, Local>(local).expect("local key");
+                let skk: SK = key_from::<$V, Secret>(sk).expect("secret key");
+                let pk: PK = key_from::<$V, Public>(&key_bytes(&donor.pk)).expect("public key");
+                Shared { lk, sk: skk, pk, good_local: donor.good_local.clone(), good_public: donor.good_public.clone(), nonce: donor.nonce.clone() }
             }
             fn corrupt(t: &str) -> String {
                 let mut b = t.as_bytes().to_vec();
@@ -113,7 +121,8 @@ macro_rules! backend_runner {
                     Err(_) => Err("panic".into()),
                 }
             }
-            let shared = Arc::new(mk(local, sk));
+            let donor = mk(local, sk);
+            let shared = Arc::new(if first_use { mk_unused(local, sk, &donor) } else { donor });
             // plan: per thread, a seeded list of (op code, index)
             let mut g = SplitMix64::new(seed);
             let plans: Vec<Vec<(u64, u64)>> = (0..threads).map(|t| (0..ops_per_thread).map(|j| (g.below(N_OPS), (t * 1000 + j) as u64)).collect()).collect();
@@ -123,10 +132,18 @@ macro_rules! backend_runner {
                 .map(|p| {
                     p.iter()
                         .map(|&(c, i)| {
-                            let mut fresh = mk(local, sk);
-                            fresh.good_local = shared.good_local.clone();
-                            fresh.good_public = shared.good_public.clone();
-                            (c, op(&fresh, c, i))
+                            // a fresh copy of the keys on a fresh thread: no state of any earlier operation,
+                            // neither in the key objects nor in thread-local storage
+                            let (l2, s2, gl, gp) = (local.to_vec(), sk.to_vec(), shared.good_local.clone(), shared.good_public.clone());
+                            let r = std::thread::spawn(move || {
+                                let mut fresh = mk(&l2, &s2);
+                                fresh.good_local = gl;
+                                fresh.good_public = gp;
+                                op(&fresh, c, i)
+                            })
+                            .join()
+                            .unwrap_or_else(|_| Err("oracle thread panicked".into()));
+                            (c, r)
                         })
                         .collect()
                 })
@@ -135,12 +152,17 @@ macro_rules! backend_runner {
                 // one thread, one key object, the whole history in order
                 plans.iter().map(|p| p.iter().map(|&(c, i)| (c, op(&shared, c, i))).collect()).collect()
             } else {
+                let barrier = Arc::new(std::sync::Barrier::new(threads));
                 let handles: Vec<_> = plans
                     .iter()
                     .cloned()
                     .map(|p| {
                         let s = Arc::clone(&shared);
-                        std::thread::spawn(move || p.iter().map(|&(c, i)| (c, op(&s, c, i))).collect::<Vec<_>>())
+                        let bar = Arc::clone(&barrier);
+                        std::thread::spawn(move || {
+                            bar.wait();
+                            p.iter().map(|&(c, i)| (c, op(&s, c, i))).collect::<Vec<_>>()
+                        })
                     })
                     .collect();
                 handles.into_iter().map(|h| h.join().unwrap_or_else(|_| vec![(99, Err("thread panicked".into()))])).collect()
@@ -159,7 +181,7 @@ backend_runner!(run_v4s, V4S, true);
 
 pub fn run(ctx: &Ctx) {
     let mut rep = Report::new("C17", &ctx.tier, ctx.seed);
-    rep.rule = "per backend one key set shared through Arc by 2, 4, 8, 16 threads, each performing a seeded random list of: sign+verify, verify good / corrupted token, dangerous_seal_with_nonce (deterministic), decrypt good / corrupted token, clone+sign+drop, Display / id / expose, wrap_pie round trip, wrong-purpose unseal; every result compared with the sequential oracle (the same operation on a fresh copy); the same plans also run as single-thread histories on one key object (failed operations interleaved with successful ones); distinct = (backend, thread count, operation, outcome)".into();
+    rep.rule = "per backend one key set shared through Arc by 2, 4, 8, 16 threads, each performing a seeded random list of: sign+verify, verify good / corrupted token, dangerous_seal_with_nonce (deterministic), decrypt good / corrupted token, clone+sign+drop, Display / id / expose, wrap_pie round trip, wrong-purpose unseal; every result compared with the sequential oracle (the same operation on a fresh copy); the oracle runs every operation on a fresh copy of the keys AND on a fresh thread (no key state, no thread-local state); each operation also has a verdict the property fixes (good tokens verify, corrupted ones fail); the same plans also run as single-thread histories on one key object (failed operations interleaved with successful ones); many short rounds of 8 threads released together by a barrier make the first use of key objects that were only parsed; distinct = (backend, thread count, operation, outcome)".into();
     let bs = lab::backends();
     let mut g = SplitMix64::new(ctx.seed ^ 0xC17);
     let thorough = ctx.thorough();
@@ -169,16 +191,22 @@ pub fn run(ctx: &Ctx) {
         let local = g.bytes(32);
         let thread_counts: Vec<usize> = if b.name == "v1" && !thorough { vec![2, 8] } else { vec![2, 4, 8, 16] };
         let per_thread = if b.name == "v1" { if thorough { 60 } else { 12 } } else if thorough { 2000 } else { 120 };
-        for (mode, tcs) in [(false, thread_counts.clone()), (true, vec![1usize])] {
+        // (history?, first use?, thread counts, operations per thread): long mixed runs on a warmed-up key set,
+        // single-thread histories, and many short rounds in which 8 threads leave a barrier together to make the
+        // FIRST use of key objects that were only parsed
+        let rounds = if b.name == "v1" { if thorough { 40 } else { 6 } } else if thorough { 1500 } else { 120 };
+        let mut phases: Vec<(bool, bool, Vec<usize>, usize)> = vec![(false, false, thread_counts.clone(), per_thread), (true, false, vec![1usize], per_thread)];
+        phases.push((false, true, vec![8usize; rounds], 2));
+        for (mode, first_use, tcs, per_thread) in phases {
             for &tc in &tcs {
                 let seed = g.next();
                 let (got, oracle) = match b.name {
-                    "v1" => run_v1(&local, &sk, tc, per_thread, seed, mode),
-                    "v2" => run_v2(&local, &sk, tc, per_thread, seed, mode),
-                    "v3" => run_v3(&local, &sk, tc, per_thread, seed, mode),
-                    "v3-aws-lc" => run_v3l(&local, &sk, tc, per_thread, seed, mode),
-                    "v4" => run_v4(&local, &sk, tc, per_thread, seed, mode),
-                    _ => run_v4s(&local, &sk, tc, per_thread, seed, mode),
+                    "v1" => run_v1(&local, &sk, tc, per_thread, seed, mode, first_use),
+                    "v2" => run_v2(&local, &sk, tc, per_thread, seed, mode, first_use),
+                    "v3" => run_v3(&local, &sk, tc, per_thread, seed, mode, first_use),
+                    "v3-aws-lc" => run_v3l(&local, &sk, tc, per_thread, seed, mode, first_use),
+                    "v4" => run_v4(&local, &sk, tc, per_thread, seed, mode, first_use),
+                    _ => run_v4s(&local, &sk, tc, per_thread, seed, mode, first_use),
                 };
                 for (t, (g_t, o_t)) in got.iter().zip(oracle.iter()).enumerate() {
                     if g_t.len() != o_t.len() {
@@ -187,13 +215,17 @@ pub fn run(ctx: &Ctx) {
                     }
                     for (j, ((c, gr), (_, or))) in g_t.iter().zip(o_t.iter()).enumerate() {
                         rep.evaluations += 1;
-                        let what = if mode { "single-thread history" } else { "concurrent use" };
-                        if gr != or {
+                        let what = if mode { "single-thread history" } else if first_use { "concurrent first use" } else { "concurrent use" };
+                        // what the property itself demands of each operation, whatever the oracle says
+                        let must_succeed = !matches!(*c, 2 | 5 | 9);
+                        if must_succeed != gr.is_ok() {
+                            rep.violation(&format!("c17.{}.bad-result.op{c}", b.name), format!("{} {what} ({tc} threads): operation {c} #{j} of thread {t} gave {:?}; it must {}", b.name, gr, if must_succeed { "succeed" } else { "fail" }), json!({"backend": b.name, "threads": tc, "seed": seed, "history": mode, "first_use": first_use, "op": c}));
+                        } else if gr != or {
                             rep.violation(&format!("c17.{}.differs.op{c}", b.name), format!("{} {what} ({tc} threads): operation {c} #{j} of thread {t} gave {:?}, on a fresh copy of the key it gives {:?}", b.name, gr, or), json!({"backend": b.name, "threads": tc, "seed": seed, "history": mode, "op": c}));
                         } else if matches!(gr, Ok(s) if s.contains("WRONG") || s.contains("ACCEPTED")) || matches!(gr, Err(e) if e == "panic") {
                             rep.violation(&format!("c17.{}.bad-result.op{c}", b.name), format!("{} {what}: operation {c} gave {:?}", b.name, gr), json!({"backend": b.name, "threads": tc, "seed": seed, "history": mode, "op": c}));
                         } else {
-                            rep.nontrivial(format!("{}|{}|t{tc}|op{c}|{}", b.name, if mode { "hist" } else { "conc" }, if gr.is_ok() { "ok" } else { "err" }));
+                            rep.nontrivial(format!("{}|{}|t{tc}|op{c}|{}", b.name, if mode { "hist" } else if first_use { "first" } else { "conc" }, if gr.is_ok() { "ok" } else { "err" }));
                         }
                     }
                 }
